@@ -149,23 +149,27 @@ def Base.resp (b : Base) : Resp :=
     | none => h
   { status := b.status, hdrs := hdel h kCL, body := b.body }
 
+/-- the values of a key, if it has any -/
+def nonEmptyVals : Option (List Bytes) → Option (List Bytes)
+  | some (v :: vs) => some (v :: vs)
+  | _ => none
+
 /-- what net/http sends after the body, given the writer state just before finishRequest.
     `earlyWire`: the header block went out before the handler returned for a reason the model does not
     see (more than 2048 bytes of encoder output). Trailers need chunked transfer: a status that allows a
     body, no declared Content-Length, and either an early header block or trailers known at header time
     (otherwise net/http computes a Content-Length for the finished handler). -/
+def Base.chunked (sn : Sniff) (b : Base) (earlyWire : Bool) : Bool :=
+  !noBody (b.finish sn).status && !hhas (b.finish sn).snap kCL &&
+    ((b.sent || earlyWire) ||
+      (!(announced (b.finish sn).snap).isEmpty || (b.finish sn).snap.any (fun kv => startsWith trailerPrefix kv.1)))
+
 def Base.trailersAtFinish (sn : Sniff) (b : Base) (earlyWire : Bool) : Hdrs :=
-  let early := b.sent || earlyWire
-  let f := b.finish sn
-  let known := !(announced f.snap).isEmpty || f.snap.any (fun kv => startsWith trailerPrefix kv.1)
-  let chunked := !noBody f.status && !hhas f.snap kCL && (early || known)
-  if !chunked then []
+  if !b.chunked sn earlyWire then []
   else
-    ((announced f.snap).eraseDups.filterMap (fun k =>
-        match hget f.live k with
-        | some (v :: vs) => some (k, v :: vs)
-        | _ => none)) ++
-      (f.live.filter (fun kv => startsWith trailerPrefix kv.1)).map (fun kv => (kv.1.drop 8, kv.2))
+    ((announced (b.finish sn).snap).filterMap (fun k =>
+        (nonEmptyVals (hget (b.finish sn).live k)).map (fun vs => (k, vs)))) ++
+      ((b.finish sn).live.filter (fun kv => startsWith trailerPrefix kv.1)).map (fun kv => (kv.1.drop 8, kv.2))
 
 /-- the handler's alphabet: primitive calls on the ResponseWriter -/
 inductive Op
